@@ -81,6 +81,7 @@ MUTANTS = {
         ("cwd_used_although_file_name_known", [(PA, "                        os.path.join(os.path.dirname(fn), inc_file_path)", "                        os.path.join(os.getcwd(), inc_file_path)")]),
         ("splice_lines_shifts_later_includes", [(PA, "            lines.pop(idx)  # remove the original include\n            lines.insert(idx, txt)", "            lines[idx:idx + 1] = txt.split(\"\\n\")")]),
         ("load_ignores_stream_name", [(PA, "        if hasattr(fp, \"name\"):", "        if False and hasattr(fp, \"name\"):")]),
+        ("open_file_without_explicit_encoding", [(PA, 'with open(fn, "r", encoding="utf-8", newline="") as f:', 'with open(fn, "r", newline="") as f:')]),
         ("include_keyword_case_sensitive", [(PA, "if l.strip().lower().startswith(\"include\"):", "if l.strip().upper().startswith(\"INCLUDE\") and l.strip()[:7] in (\"INCLUDE\", \"include\"):")]),
     ],
     "C17": [
